@@ -73,6 +73,10 @@ func propConfigs() map[string]*PropConfig {
 		Explain: "the real vectorIndex, stringIndex, mapIndex, mapIndex1, slice2, slice3 and sliceString compile functions are executed per element kind and constness shape on symbolic slices, strings and maps; the returned closures are compared with Go's indexing / slicing / map reads including panic equivalence"})
 	add(&PropConfig{ID: "C22", Prefix: "VH_C22_", StrBytes: 8, Sets: []HarnessSet{hfiles("ast2", "ast2/lib_ast2.go", "ast2/c22_gen.go")},
 		Explain: "for each node wrapper of package ast2 a node with symbolic tokens, strings and flags and every presence/length combination of its children is copied with New + Get(i) + Set(i) for i < Size and compared field by field with the original"})
+	add(&PropConfig{ID: "C36", Prefix: "VH_C36_", StrBytes: 8, Sets: []HarnessSet{hfiles("fast", fastLib, "fast/c36.go")},
+		Thorough: func(n string) bool { return strings.Contains(n, "_T_") },
+		Redirect: map[string]string{"sort.Strings": "vhSortModel"},
+		Explain: "the real sortUnique and Comp.completeWord are executed on symbolic names; sort.Strings is replaced by an insertion-sort model"})
 	xrp := "(*github.com/cosmos72/gomacro/xreflect.xtype)."
 	add(&PropConfig{ID: "C34", Prefix: "VH_C34_", Sets: []HarnessSet{hfiles("xreflect", "xreflect/lib_xreflect.go", "xreflect/c34_gen.go")},
 		Redirect: map[string]string{xrp + "NumMethod": "vhModelNumMethod", xrp + "Method": "vhModelMethod", xrp + "GetMethods": "vhModelGetMethods"},
